@@ -37,7 +37,9 @@ ASSUMPTIONS = [
 
 HAZ = ["aa", "Bb.", "a", "cccccccccc",
        "-", "+", "*", "1.", "1)", "2.", "10.", "#", "##", "#######", ">", ">x", ">=", "=", "==", "---", "--", "***", "___",
-       "```", "```x", "~~~", "|", "|x|", "[x]:", "[^x]:", "<div>", "<!--", "[", "]", "\\-", "1\\.", "\\#", "&amp;", "\\"]
+       "```", "```x", "~~~", "|", "|x|", "[x]:", "[^x]:", "<div>", "<!--", "[", "]", "\\-", "1\\.", "\\#", "&amp;", "\\",
+       # appended later: words ending in runs of 2, 3 and 5 backslashes (an odd run at a wrapped line end would read as a hard break)
+       "a\\\\", "a\\\\\\", "a\\\\\\\\\\"]
 HAZ_REPS = [HAZ.index(t) for t in ("aa", "Bb.", "-", "1.", "1)", "#", ">", ">x", "=", "---", "***", "___", "```", "~~~", "|",
                                    "[x]:", "<div>", "\\-", "cccccccccc")]
 
